@@ -316,8 +316,16 @@ class FnCompiler:
                     return
                 self.fail(node, "operation on the stop flag not understood")
             cr = self.cond_ref(obj)
-            if cr is not None and meth in ("notify_all", "notifyAll", "notify"):
+            if cr is not None and meth in ("notify_all", "notifyAll") and not args and not kw:
                 self.emit("notifyAll", cr)
+                return
+            if cr is not None and meth == "notify":
+                # notify(n=1) wakes the n OLDEST waiters only
+                n = args[0] if args else kw.get("n", ast.Constant(1))
+                if not (isinstance(n, ast.Constant) and isinstance(n.value, int) and not isinstance(n.value, bool)
+                        and 0 <= n.value <= 8) or len(args) > 1 or (set(kw) - {"n"}):
+                    self.fail(node, "argument of notify() not understood")
+                self.emit("notify", cr, n.value)
                 return
             if cr is not None and meth == "wait":
                 t = args[0] if args else kw.get("timeout", ast.Constant(None))
